@@ -70,6 +70,21 @@ class C10(CurveCheck):
             B = rand_point(rng, T if rng.getrandbits(1) else None)
             for i in idxs + [rng.getrandbits(rng.choice([7, 14, 21, 32, 64]))]:
                 cs.append(Case("onetime %s %s %s %d" % (hx(ed.compress(S)), hx(le(a)), hx(ed.compress(B)), i), "onetime"))
+        # degenerate shared secrets: the transaction key is one of the eight small-order points (8*(a*T) is the neutral element for
+        # every a) or the view scalar is 0; the one-time key is still Hs(O || n)*G + S and must be recognised like any other
+        for t in T:
+            for a in (1, 2, L - 1, rng.randrange(L)):
+                S = rand_point(rng, T if rng.getrandbits(1) else None)
+                for i in (0, 1, 128, rng.getrandbits(16)):
+                    cs.append(Case("onetime %s %s %s %d" % (hx(ed.compress(S)), hx(le(a)), hx(ed.compress(t)), i), "onetime:small-order-tx-key"))
+        for t in T:
+            cs.append(Case("onetime %s %s %s %d" % (hx(ed.compress(t)), hx(le(rng.randrange(L))), hx(ed.compress(rand_point(rng))), 3),
+                           "onetime:small-order-spend-key"))
+        for i in (0, 5, 300):
+            cs.append(Case("onetime %s %s %s %d" % (hx(ed.compress(rand_point(rng))), hx(le(0)), hx(ed.compress(rand_point(rng))), i),
+                           "onetime:zero-view-scalar"))
+            cs.append(Case("sendrecv %s %s %s %d" % (hx(le(0)), hx(le(rng.randrange(L))), hx(ed.compress(rand_point(rng))), i), "sendrecv:zero-tx-secret"))
+            cs.append(Case("sendrecv %s %s %s %d" % (hx(le(rng.randrange(L))), hx(le(0)), hx(ed.compress(rand_point(rng))), i), "sendrecv:zero-view-secret"))
         for _ in range(60 if q else 500):
             r, v = rng.choice([1, L - 1, rng.randrange(L), rng.randrange(L)]), rng.choice([1, rng.randrange(L)])
             S = rand_point(rng, T if rng.random() < 0.3 else None)
